@@ -24,7 +24,8 @@ Observed on the unchanged library:
 
 Proposed minimal fix (verified in a scratch worktree: this script prints 0 problems; test/orm/test_session.py
 test_transaction.py test_events.py test_unitofworkv2.py test_naturalpks.py test_session_state_change.py test_cascade.py:
-1027 passed, 80 skipped; ./check C32 C33 C34 exit 0 on the fixed tree):
+1027 passed, 80 skipped; ./check C32 exit 0 on the fixed tree, C33 / C34 report exactly what they report on the
+unchanged tree):
 
          for state in states:
              if state in self._new:
